@@ -595,9 +595,12 @@ std::size_t dataframe::read_xrff(tinyxml2::XMLDocument &doc, const params &p)
       if (p.filter && p.filter(record) == false)
         continue;
 
-      std::rotate(record.begin(),
-                  std::next(record.begin(), output_index),
-                  std::next(record.begin(), output_index + 1));
+      // An instance without the output value is malformed: it's left as it is
+      // and `read_record` discards it (wrong number of fields).
+      if (output_index < record.size())
+        std::rotate(record.begin(),
+                    std::next(record.begin(), output_index),
+                    std::next(record.begin(), output_index + 1));
 
       read_record(record, false);
     }
